@@ -187,3 +187,21 @@ Proof.
     + intros [H|[k H]]; [apply (Snd c Hc); exact H|exists k; exact H].
     + intros [k H]. right. exists k. exact H.
 Qed.
+Theorem identify_neighbours_inv g : Inv g -> Inv (identify_neighbours g).
+Proof.
+  intros [IS [D1 D2 D3]]. constructor; [apply identify_neighbours_invS; exact IS|].
+  assert (Snd : nbrs_sound g).
+  { intros c Hc. split; [apply (s3b_nd g D1 c Hc)|]. intros d Hd. apply (s3b_ex g D1 c Hc d). exact Hd. }
+  pose proof (identify_neighbours_establishes g Snd) as D1'.
+  rewrite identify_neighbours_eq in *. destruct (idn_closed (klist g) g) as [m [E _]]. rewrite E in *.
+  constructor; assumption.
+Qed.
+Theorem setup_block_name_index_invS g g' : InvS g -> setup_block_name_index g = Ok g' -> InvS g'.
+Proof. intros I H. destruct (setup_block_name_index_closed g g' H) as [l [_ ->]]. apply invS_set_bnl, I. Qed.
+Theorem setup_block_connection_name_index_invS g g' : InvS g -> setup_block_connection_name_index g = Ok g' -> InvS g'.
+Proof. intros I H. destruct (setup_block_connection_name_index_closed g g' H) as [l [_ ->]]. apply invS_set_bcl, I. Qed.
+Theorem set_num_layers_invS g name g' : InvS g -> set_num_layers g name = Ok g' -> InvS g'.
+Proof.
+  intros I H. unfold set_num_layers in H. destruct (cget g name) as [c|]; [|discriminate].
+  destruct (set_column_num_layers_closed g c g' H) as [n [_ ->]]. apply invS_set_cnl, I.
+Qed.
